@@ -64,6 +64,7 @@ FINDING_TEXT = {
     "F26": "base file name without an extension (or a hidden file such as .log): the start-up scans compare the entry's extension with the base's empty one, recover and clean nothing; after an append-mode restart the rotations overwrite the previous run's rotated files",
     "F27": "FilenameAppendOption set: the start-up scans use the name handed to the constructor, not the name the sink writes to (stem_<stamp>): nothing is recovered or cleaned, an append-mode restart with the same stamp overwrites the previous run's rotated files",
     "F28": "RotatingJsonFileSink counts log_statement.size() in _file_size while the JSON line is what is written: a file passes rotation_max_file_size holding many statements",
+    "F29": "base file name whose stem ends in .<number> (x.1.log): the append-mode recovery of the Index scheme takes the current file itself for rotated file #1 of x.log; the next rotation renames the current file to x.2.log, outside the sink's family",
     "F19": "daily rotation adds 24 h: in a zone with DST the HH:MM schedule drifts by the DST shift after a transition",
 }
 
@@ -105,6 +106,8 @@ def classify(line):
         return "F27"
     if f.get("base") in ("noext", "hidden") and f.get("blind") == "1" and k in lost:
         return "F26"
+    if f.get("base") == "numstem" and sch == "I" and int(f.get("arestarts", "0") or 0) >= 1 and k in lost + ("not-in-cur",):
+        return "F29"
     return None
 
 
